@@ -16,6 +16,10 @@ B_empty   == << Blk("ok", 1, 0, 0), Blk("ok", 1, 1, 0), Blk("ok", 1, 0, 0) >>
 B_sim4    == << Blk("ok", 2, 2, 0), Blk("ok", 3, 2, 0), Blk("ok", 1, 3, 3), Blk("ok", 2, 1, 0) >>
 B_cat     == << Blk("ok", 1, 1, 0), Blk("ok", 2, 1, 0) >>
 FullFile == FullLen
+\* Block 2 needs a bigger filter chain than memlimit_stop = 3 allows (Block 1 can be decoded in a thread: 1 + 2 <= 3)
+BlkM(h, i, o, e, mm, f) == [hdr |-> h, bh |-> 1, insz |-> i, outsz |-> o, errAt |-> e, mem |-> mm, fmem |-> f]
+B_memstop == << BlkM("ok", 2, 2, 0, 1, 1), BlkM("ok", 1, 1, 0, 5, 4), BlkM("ok", 1, 1, 0, 1, 1) >>
+B_memstop_err == << BlkM("ok", 2, 2, 2, 1, 1), BlkM("ok", 1, 1, 0, 5, 4) >>
 B_ok4     == << Blk("ok", 2, 2, 0), Blk("ok", 1, 1, 0), Blk("ok", 1, 1, 0), Blk("ok", 2, 2, 0) >>
 
 CallBound == m.calls <= MaxCalls
@@ -54,7 +58,14 @@ QueueOk ==
     /\ Len(c.outq) <= BufsLimit
     /\ \A i \in 1..Len(c.outq) : c.outq[i].fin /\ c.outq[i].ret = "END" => c.outq[i].pos = GB(c.outq[i].b).outsz
     /\ \A i, j \in 1..Len(c.outq) : i < j => c.outq[i].b < c.outq[j].b
-    /\ c.memInUse + OutqMem(c.outq) <= MemT
+    /\ c.memInUse + OutqMem(c.outq) <= m.memT /\ m.memT <= m.memStop
+
+\* LZMA_MEMLIMIT_ERROR exactly when the sequential decoder with the same limit says so, after all the output that
+\* precedes the refused Block; and nothing is decoded beyond the limit
+MemlimitEquivalence ==
+    /\ (m.pc = "out" /\ m.lastRet = "MEMLIMIT_ERROR") =>
+            (c.outq = <<>> /\ St(m.given).ret = "MEMLIMIT_ERROR" /\ m.delivered = St(m.given).out)
+    /\ (m.seq \in {"DIRECTINIT", "DIRECTRUN", "THRINIT", "THRRUN"} => FMem(GB(m.blk)) <= m.memStop)
 
 \* internal codes never escape
 DocumentedCodes == m.lastRet \in {"OK", "STREAM_END", "BUF_ERROR", "DATA_ERROR", "OPTIONS_ERROR", "MEMLIMIT_ERROR"}
@@ -64,9 +75,13 @@ EndJoinsAll == m.pc = "freed" => \A w \in W : t[w].pc = "none"
 
 \* liveness under fairness: a caller that always offers all remaining input (with LZMA_FINISH) and ample output
 \* space eventually gets a terminal status, or LZMA_BUF_ERROR for a truncated file, or frees the decoder
-GoodApp == (\E s \in Spaces : Call("FINISH", FileLen - m.given, s)) \/ AppEnd
+\* (a refused caller raises the limit to what the refused Block needs, as long as it is allowed to)
+Refused == m.pc = "out" /\ m.lastRet = "MEMLIMIT_ERROR" /\ m.raises < MaxRaise
+GoodApp == IF Refused THEN AppRaise(FMem(GB(m.blk)))
+           ELSE (\E s \in Spaces : Call("FINISH", FileLen - m.given, s)) \/ AppEnd
 LiveNext == Main \/ (\E w \in W : Worker(w)) \/ GoodApp \/ (Terminated /\ UNCHANGED vars)
 Fairness == WF_vars(Main) /\ (\A w \in W : WF_vars(Worker(w))) /\ WF_vars(GoodApp)
 FairSpec == Init /\ [][LiveNext]_vars /\ Fairness
-EventuallyDone == <>(m.ended \/ m.pc = "freed" \/ (m.pc = "out" /\ m.lastRet = "BUF_ERROR"))
+EventuallyDone == <>(m.ended \/ m.pc = "freed" \/ (m.pc = "out" /\ m.lastRet = "BUF_ERROR")
+                     \/ (m.pc = "out" /\ m.lastRet = "MEMLIMIT_ERROR" /\ m.raises >= MaxRaise))
 =============================================================================
